@@ -34,16 +34,63 @@ def tableOfJ (j : J) : Except String Table := do
   let title := match j.get? "title" with
     | some (.str s) => s
     | _ => ""
-  pure { header := header, cols := cols, title := title }
+  let index := match j.get? "index" with
+    | some (.str s) => some s
+    | _ => none
+  -- `make_table(..., index_name=…)`: the index column is moved to the front
+  pure (Table.norm { header := header, cols := cols, title := title, index := index })
+
+def optIntJ : J → Except String (Option Int)
+  | .null => pure none
+  | j => do pure (some (← j.toInt))
+
+def rowSelOfJ (j : J) : Except String RowSel := do
+  let l ← j.toList
+  let tag ← (l.headD .null).toStr
+  if tag = "all" then pure .all
+  else if tag = "int" then pure (.int (← (l.getD 1 .null).toInt))
+  else if tag = "slice" then
+    let c ← optIntJ (l.getD 3 .null)
+    pure (.slice (← optIntJ (l.getD 1 .null)) (← optIntJ (l.getD 2 .null)) (c.getD 1))
+  else if tag = "ints" then pure (.ints (← (l.getD 1 .null).toListOf J.toInt))
+  else if tag = "mask" then pure (.mask (← (l.getD 1 .null).toListOf J.toBool))
+  else throw "bad row selector"
+
+def colSelOfJ (j : J) : Except String ColSel := do
+  let l ← j.toList
+  let tag ← (l.headD .null).toStr
+  if tag = "all" then pure .all
+  else if tag = "names" then pure (.names (← (l.getD 1 .null).toListOf J.toStr))
+  else if tag = "int" then pure (.int (← (l.getD 1 .null).toInt))
+  else if tag = "ints" then pure (.ints (← (l.getD 1 .null).toListOf J.toInt))
+  else if tag = "slice" then
+    let c ← optIntJ (l.getD 3 .null)
+    pure (.slice (← optIntJ (l.getD 1 .null)) (← optIntJ (l.getD 2 .null)) (c.getD 1))
+  else if tag = "bools" then pure (.bools (← (l.getD 1 .null).toListOf J.toBool))
+  else throw "bad column selector"
+
+/-- column predicates for `filtered_by_column` -/
+def cpredOfJ (j : J) : Except String (List Cell → Bool) := do
+  let tag ← ((← j.toList).headD .null).toStr
+  if tag = "allnum" then pure fun c => c.all fun x => match x with | .int _ => true | .float _ => true | _ => false
+  else if tag = "nomissing" then pure fun c => c.all (· ≠ .missing)
+  else if tag = "anystr" then pure fun c => c.any fun x => match x with | .str _ => true | _ => false
+  else if tag = "true" then pure fun _ => true
+  else throw "bad column predicate"
 
 def tableToJ (t : Table) : J :=
   .obj [("header", .arr (t.header.map .str)),
         ("rows", .arr (t.rows.map fun r => .arr (r.map cellToJ))),
-        ("ncols", .num t.cols.length)]
+        ("ncols", .num t.cols.length),
+        ("index", match t.index with | some k => .str k | none => .null)]
+
 
 def exJ {α} (f : α → J) : Except String α → J
   | .ok a => f a
   | .error e => .obj [("err", .str e)]
+
+/-- a result table is looked at through `to_list()` / `.header`, which validates a handed-on index_name -/
+def resJ (r : Except String Table) : J := exJ tableToJ (r.bind Table.observe)
 
 def strsOfJ (j : J) : Except String (List String) := j.toListOf J.toStr
 
@@ -133,18 +180,33 @@ def handle (cmd : String) (j : J) : Except String J :=
     match ← (← j.get "op").toStr with
     | "inner_join" => do
       let u ← tableOfJ (← j.get "u")
-      pure (exJ tableToJ (t.innerJoin u (← strsOfJ (← j.get "ks")) (← strsOfJ (← j.get "ko"))))
+      pure (resJ (t.innerJoin u (← strsOfJ (← j.get "ks")) (← strsOfJ (← j.get "ko"))))
     | "natural_join" => do
       let u ← tableOfJ (← j.get "u")
       let (ks, ko) := t.naturalKeys u
-      pure (exJ tableToJ (t.innerJoin u ks ko))
+      pure (resJ (t.innerJoin u ks ko))
     | "cross_join" => do
       let u ← tableOfJ (← j.get "u")
-      pure (exJ tableToJ (t.crossJoin u))
-    | "get_columns" => pure (exJ tableToJ (t.getColumns (← strsOfJ (← j.get "columns"))))
+      pure (resJ (pure (t.crossJoin u)))
+    | "get_columns" =>
+      pure (resJ (t.getColumns (← strsOfJ (← j.get "columns")) (← (← j.get "with_index").toBool)))
+    | "row_indices" => do
+      let p ← predOfJ (← j.get "pred")
+      pure (exJ (fun l => .arr (l.map .bool))
+        (t.rowIndices p (← strsOfJ (← j.get "columns")) (← (← j.get "negate").toBool)))
+    | "count" => do
+      let p ← predOfJ (← j.get "pred")
+      pure (exJ (fun n => .num n) (t.count p (← strsOfJ (← j.get "columns"))))
+    | "filtered_by_column" => do
+      let p ← cpredOfJ (← j.get "cpred")
+      pure (resJ (pure (t.filteredByColumn p)))
+    | "getitem" => do
+      let rows ← rowSelOfJ (← j.get "rows")
+      let cs ← colSelOfJ (← j.get "cols")
+      pure (resJ (do t.getItem rows (← cs.toNames t.header)))
     | "filtered" => do
       let p ← predOfJ (← j.get "pred")
-      pure (exJ tableToJ (t.filtered p (← strsOfJ (← j.get "columns"))))
+      pure (resJ (t.filtered p (← strsOfJ (← j.get "columns"))))
     | "count_unique" => do
       pure (exJ (fun l => .arr (l.map fun (k, n) => .arr [.arr (k.map keyToJ), .num n]))
         (t.countUnique (← strsOfJ (← j.get "columns"))))
@@ -153,26 +215,23 @@ def handle (cmd : String) (j : J) : Except String J :=
         (t.distinctValues (← strsOfJ (← j.get "columns"))))
     | "with_new_column" => do
       let f ← fnOfJ (← j.get "fn")
-      pure (exJ tableToJ (t.withNewColumn (← (← j.get "new").toStr) f (← strsOfJ (← j.get "columns"))))
+      pure (resJ (t.withNewColumn (← (← j.get "new").toStr) f (← strsOfJ (← j.get "columns"))))
     | "appended" => do
       let others ← (← j.get "others").toListOf tableOfJ
       let nc ← match ← j.get "new" with
         | .null => pure none
         | x => do pure (some (← x.toStr))
-      pure (exJ tableToJ (t.appended nc others))
+      pure (resJ (t.appended nc others))
     | "transposed" => do
       let sel ← match ← j.get "select" with
         | .null => pure none
         | x => do pure (some (← x.toStr))
-      pure (exJ tableToJ (t.transposed (← (← j.get "new").toStr) sel))
+      pure (resJ (t.transposed (← (← j.get "new").toStr) sel))
     | "sorted" => do
       let r := t.sorted (← optStrsOfJ (← j.get "columns")) (← strsOfJ (← j.get "reverse"))
       -- also return the (transformed) key sequence so that tie order need not be compared
-      pure (exJ tableToJ r)
+      pure (resJ r)
     | o => throw s!"unknown op {o}"
-  | "reverse_str" => do
-    let r : List Nat := reverseStr ((← (← j.get "s").toStr).toList.map Char.toNat)
-    pure (.arr (r.map fun (n : Nat) => J.num (Int.ofNat n)))
   | "lex_le" => do
     let a := (← (← j.get "a").toStr).toList.map Char.toNat
     let b := (← (← j.get "b").toStr).toList.map Char.toNat
